@@ -341,6 +341,9 @@ func c01(c *Ctx) {
 				if fa, ok := defectField[cat[a].name]; ok && fa == defectField[cat[b].name] {
 					continue
 				}
+				if pacVsName(cat[a].name, cat[b].name) || pacVsName(cat[b].name, cat[a].name) {
+					continue
+				}
 				if c.Quick() && c.R.Intn(len(cat)*(len(cat)-1)/2) >= nPairs {
 					continue
 				}
@@ -373,6 +376,13 @@ var defectField = map[string]string{"start-outside": "start", "start-inside": "s
 	"flip-ticket": "tktcipher", "trunc-ticket": "tktcipher", "flip-auth": "authcipher", "trunc-auth": "authcipher",
 	"cname-mismatch": "authcname", "cname-prefix": "authcname", "cname-shorter": "authcname", "cname-empty": "authcname", "cname-boundary": "authcname", "multi-component-client": "authcname", "invalid-flag": "flags", "other-flags": "flags", "broken-pac": "authdata", "valid-pac": "authdata", "valid-pac-rodc": "authdata", "pac-bad-signature": "authdata",
 	"ctime-late": "ctime", "ctime-early": "ctime", "ctime-inside": "ctime", "wrong-key": "tktkey", "auth-key": "authkey", "ctime-late-subsecond": "ctime", "end-outside-subsecond": "end", "kvno-plus-256": "kvno", "wrong-kvno": "kvno"}
+
+// The sample PAC names testuser1; a KDC seals a PAC for the client it names in the ticket.  With PAC decoding on the
+// library reports the PAC's EffectiveName as the user name, so a valid PAC under a ticket for ANOTHER client is an input
+// no KDC produces: such pairs are skipped.
+func pacVsName(a, b string) bool {
+	return (a == "valid-pac" || a == "valid-pac-rodc") && (b == "multi-component-client" || b == "cname-boundary" || b == "cname-shorter")
+}
 
 func defectIndex(cat []defect, name string) int {
 	for i := range cat {
